@@ -1,4 +1,4 @@
-"""pyvc.calls -- call handling: spec forms, library patterns, builtins, closures, contracts, opaque."""
+"""pvc.calls -- call handling: spec forms, library patterns, builtins, closures, contracts, opaque."""
 from __future__ import annotations
 import ast, textwrap
 from .smt import *
@@ -301,7 +301,7 @@ class CallMixin:
 
     def empty_container(self, nm, n):
         self.note("empty-container-untyped", nm, n.lineno)
-        return ("empty", nm)
+        return EmptyV(nm)
 
     def isinstance_(self, v, clsnode, st):
         names = [ast.unparse(e) for e in clsnode.elts] if isinstance(clsnode, ast.Tuple) else [ast.unparse(clsnode)]
